@@ -118,7 +118,13 @@ func checkErr(c *sem.Case, io sem.ImplOut) string {
 
 func runCase(t rk.Failer, slot string, c *sem.Case, hostile bool, key string, labels ...string) {
 	if c.Texts == nil {
-		c.Print(nil)
+		if (len(key)+len(labels))%3 == 1 {
+			// every third case is printed with each operand on the line below its operator
+			c.Print(func() gen.Layout { return gen.Broken{} })
+			labels = append(labels, "layout/operands-on-the-next-line")
+		} else {
+			c.Print(nil)
+		}
 	}
 	if !guard(c) {
 		return
@@ -666,7 +672,19 @@ func TestLiteralArgumentTables(t *testing.T) {
 			run(fmt.Sprintf("strfmt/%d/%d", fi, ai), fmt.Sprintf("strfmt(out, %s%s)\nprintf(%s%s)", gen.QuoteDouble(f), a, gen.QuoteDouble(f+"\n"), a), map[string]any{"message": "m", "f1": 2.5})
 		}
 	}
-	evid.Exhaustive("xpath x document; zone x time text; format x arguments", n)
+	// grok expressions whose named captures need not take part in a match (optional groups, alternatives, repetitions)
+	groks := []string{"(?:%{INT:code:int} )?%{WORD:w}", "%{WORD:verb} (?:%{NUMBER:bytes:int}|-)", "%{WORD:a}(?: %{WORD:b})?$", "^(?:%{INT:x:float}|%{WORD:y:bool})$", "(%{INT:n:int})*%{WORD:w}", "%{WORD:a}(?: (?:%{INT:deep})?)?",
+		"(?P<p>a)?b", "((?P<q>x)|y)+", "%{DATA:d}(?:,%{DATA:e:str})?$", "(?:(?:%{IP:ip})|(?:%{WORD:host}))"}
+	subjects := []string{"hello", "42 hello", "GET -", "GET 17", "one", "one two", "12", "word", "b", "ab", "y", "xy", "a,b", "1.2.3.4", "", " "}
+	for gi, g := range groks {
+		for si, sb := range subjects {
+			if (gi+si)%evid.NShards() != evid.Shard() {
+				continue
+			}
+			run(fmt.Sprintf("grok-optional/%d/%d", gi, si), fmt.Sprintf("ok = grok(_, %s)\ngrok(t1, %s, false)\nadd_key(ok)", gen.QuoteDouble(g), gen.QuoteDouble(g)), map[string]any{"message": sb})
+		}
+	}
+	evid.Exhaustive("xpath x document; zone x time text; format x arguments; grok with optional captures x subject", n)
 }
 
 func TestFixedHostile(t *testing.T) {
